@@ -396,8 +396,10 @@ def forced_values(decls, cs, base, fixed, names):
     return True, vals
 
 
-def build_session(decls, constraints, keys=None):
-    """Rebuild a real Solver from printed declarations / constraints (used by replays)."""
+def build_session(decls, constraints, keys=None, posts=None):
+    """Rebuild a real Solver from printed declarations / constraints (used by replays).  With `posts` (a list of
+    [ensure form, [printed items]] as recorded by dslgen.post) the constraints are posted through the real `ensure` in the
+    recorded argument form instead of being appended directly."""
     from cspuz import Solver
     from cspuz.expr import BoolExpr, IntExpr, Op
     from .core import parse_sx
@@ -426,8 +428,28 @@ def build_session(decls, constraints, keys=None):
         ops = [mk(x) for x in t[1:]]
         op = names[t[0]]
         return (IntExpr if t[0] in int_ops else BoolExpr)(op, ops)
-    for c in constraints:
-        s.constraints.append(mk(parse_sx(c)))
+    if posts is not None:
+        for form, texts in posts:
+            items = [mk(parse_sx(t)) for t in texts]
+            if form == -1:
+                s.ensure(items[0])
+            elif form == 0:
+                s.ensure([items[0], items[1:]])
+            elif form == 1:
+                s.ensure((items[0], tuple(items[1:])))
+            elif form == 2:
+                s.ensure(*items)
+            elif form == 3:
+                s.ensure(x for x in items)
+            elif form == 4:
+                s.ensure(iter(items))
+            elif form == 5:
+                s.ensure(map(lambda x: x, items))
+            else:
+                s.ensure([items[0], (x for x in items[1:])])
+    else:
+        for c in constraints:
+            s.constraints.append(mk(parse_sx(c)))
     if keys:
         for i, k in enumerate(keys):
             if k:
